@@ -84,6 +84,33 @@ fn api_jet(model: &Arc<ResidualModel>, s: &RState) -> Option<Value> {
 /// central finite differences on the public API around a state (the search oracle of DESIGN.md section 4):
 /// each reported derivative vs. the numerical derivative of the next-lower-order quantity.
 fn fd_search(model: &Arc<ResidualModel>, s: &RState) -> Vec<Value> {
+    // a derivative is flagged only if it disagrees with the central difference for EVERY step size
+    // (truncation error dominates for large steps, round-off noise for small ones)
+    let mut best: std::collections::BTreeMap<String, (f64, Value)> = std::collections::BTreeMap::new();
+    let hs = [1e-3, 1e-4, 1e-5, 1e-6];
+    for (k, h) in hs.iter().enumerate() {
+        let mut seen = std::collections::BTreeSet::new();
+        for (q, excess, v) in fd_search_h(model, s, *h) {
+            seen.insert(q.clone());
+            if k == 0 {
+                best.insert(q, (excess, v));
+            } else if let Some(e) = best.get_mut(&q) {
+                if excess < e.0 {
+                    *e = (excess, v);
+                }
+            }
+        }
+        // a quantity that passed for this step size is fine
+        best.retain(|q, _| seen.contains(q));
+        if best.is_empty() {
+            break;
+        }
+    }
+    best.into_values().map(|(_, v)| v).collect()
+}
+
+/// (quantity, mismatch / tolerance, description) of every derivative outside its tolerance for step `h`
+fn fd_search_h(model: &Arc<ResidualModel>, s: &RState, h: f64) -> Vec<(String, f64, Value)> {
     let mut out = Vec::new();
     let nc = s.n.len();
     let nd = nc + 2;
@@ -102,11 +129,16 @@ fn fd_search(model: &Arc<ResidualModel>, s: &RState) -> Vec<Value> {
         1 => s.v,
         k => s.n[k - 2],
     };
-    let h = 1e-5;
     // ideal-gas magnitude N*T / prod(coordinates): round-off noise of a finite difference scales with it
     let ntot: f64 = s.n.iter().sum();
     let ig = |dirs: &[usize]| dirs.iter().fold(ntot * s.t, |a, d| a / coord(*d));
     let getf = |v: &Value| v.as_f64().unwrap_or(f64::NAN);
+    let mut test = |name: String, fd: f64, an: f64, tol: f64| {
+        if fd.is_finite() && an.is_finite() && !((fd - an).abs() <= tol) {
+            out.push((name.clone(), (fd - an).abs() / tol,
+                json!({"quantity": name, "state": s.vars(), "reported": an, "finite_difference": fd, "step": h})));
+        }
+    };
     for d in 0..nd {
         let (Some(jp), Some(jm)) = (api_jet(model, &shift(d, h)), api_jet(model, &shift(d, -h))) else { continue };
         let dx = 2.0 * h * coord(d);
@@ -114,26 +146,20 @@ fn fd_search(model: &Arc<ResidualModel>, s: &RState) -> Vec<Value> {
         let fd = (getf(&jp["a0"]) - getf(&jm["a0"])) / dx;
         let an = getf(&j0["a1"][d]);
         let sc = an.abs().max(getf(&j0["a0"]).abs() / coord(d));
-        if !((fd - an).abs() <= 1e-5 * sc + 1e-8 * ig(&[d])) {
-            out.push(json!({"quantity": format!("dA/d{d}"), "state": s.vars(), "reported": an, "finite_difference": fd}));
-        }
+        test(format!("dA/d{d}"), fd, an, 1e-5 * sc + 1e-8 * ig(&[d]));
         // second order vs first order
         for e in 0..nd {
             let fd = (getf(&jp["a1"][e]) - getf(&jm["a1"][e])) / dx;
             let an = getf(&j0["a2"][e][d]);
             let sc = an.abs().max(getf(&j0["a1"][e]).abs() / coord(d));
-            if !((fd - an).abs() <= 1e-5 * sc + 1e-8 * ig(&[e, d])) {
-                out.push(json!({"quantity": format!("d2A/d{e}d{d}"), "state": s.vars(), "reported": an, "finite_difference": fd}));
-            }
+            test(format!("d2A/d{e}d{d}"), fd, an, 1e-5 * sc + 1e-8 * ig(&[e, d]));
         }
         if d < 2 {
             let key = if d == 0 { "TTT" } else { "VVV" };
             let fd = (getf(&jp["a2"][d][d]) - getf(&jm["a2"][d][d])) / dx;
             let an = getf(&j0["a3"][key]);
             let sc = an.abs().max(getf(&j0["a2"][d][d]).abs() / coord(d));
-            if !((fd - an).abs() <= 1e-4 * sc + 1e-8 * ig(&[d, d, d])) {
-                out.push(json!({"quantity": format!("d3A/d{key}"), "state": s.vars(), "reported": an, "finite_difference": fd}));
-            }
+            test(format!("d3A/d{key}"), fd, an, 1e-4 * sc + 1e-8 * ig(&[d, d, d]));
         }
     }
     out
